@@ -1063,6 +1063,31 @@ Proof. intros H. rewrite (Hf_ext K ab T (fun j => g j * k) H). apply (Hf_scale K
 Definition hh (ab cd : F) (g : nat -> nat -> F) (a b c d : nat) : F :=
   Hf K ab (fun a' => Hf K cd (fun c' => g a' c') d c) b a.
 
+(* hh is characterised by: hh a 0 c 0 = g a c and the two rules "(x-B) = (x-A) + AB", "(x-D) = (x-C) + CD" *)
+Lemma hh_00 ab cd g a c : hh ab cd g a 0 c 0 = g a c.
+Proof. reflexivity. Qed.
+Lemma hh_Sb ab cd g a b c d : hh ab cd g a (S b) c d = hh ab cd g (S a) b c d + ab * hh ab cd g a b c d.
+Proof. reflexivity. Qed.
+Lemma hh_Sd ab cd g a b c d : hh ab cd g a b c (S d) = hh ab cd g a b (S c) d + cd * hh ab cd g a b c d.
+Proof.
+  unfold hh. cbn [Hf].
+  rewrite (Hf_ext K ab (fun a' => Hf K cd (fun c' => g a' c') d (S c) + cd * Hf K cd (fun c' => g a' c') d c)
+                       (fun a' => Hf K cd (fun c' => g a' c') d (S c) + Hf K cd (fun c' => g a' c') d c * cd))
+    by (intros; ring).
+  rewrite (Hf_add K Kf ab (fun a' => Hf K cd (fun c' => g a' c') d (S c))
+                          (fun a' => Hf K cd (fun c' => g a' c') d c * cd)).
+  rewrite (Hf_scale K Kf). ring.
+Qed.
+(* explicit double binomial sum *)
+Lemma hh_binomial ab cd g a b c d :
+  hh ab cd g a b c d
+  = sumn 0 (fadd K) (S b) (fun k => binF K b k * fpow K ab (b - k) *
+      sumn 0 (fadd K) (S d) (fun l => binF K d l * fpow K cd (d - l) * g (a + k)%nat (c + l)%nat)).
+Proof.
+  unfold hh. rewrite (hrr_binomial K Kf). apply sumn_ext. intros k Hk.
+  rewrite (hrr_binomial K Kf). reflexivity.
+Qed.
+
 (* a table that factorises over the axes gives a product of per-axis quantities *)
 Lemma chan_val_product (gx gy gz : nat -> nat -> F) cx cy cz dx dy dz bx by_ bz ax ay az :
   chan_val K abx aby abz cdx cdy cdz
